@@ -902,26 +902,20 @@ impl<'a> Runner<'a> {
         if self.dead {
             return;
         }
-        empty_trash();
         // pool trimming (drop oldest extras)
-        let extra: Vec<Waker> = with(|w| {
-            let mut v = vec![];
+        with(|w| {
             while w.wakers.len() > POOL_LIMIT {
-                v.push(w.wakers.remove(0).waker);
+                let h = w.wakers.remove(0);
+                w.trash.push(h.waker);
             }
             while w.owed.len() > POOL_LIMIT {
                 let h = w.owed.remove(0);
-                // an owed wake may not be lost: deliver it by dropping only if the child is gone
-                v.push(h.waker);
-                let _ = h.child;
+                w.trash.push(h.waker);
             }
-            v
         });
-        if !extra.is_empty() {
-            if let Err(p) = catch_unwind(AssertUnwindSafe(|| flags::in_crate(|| drop(extra)))) {
-                self.handle_panic(p, "waker drop");
-                return;
-            }
+        if let Err(p) = empty_trash() {
+            self.handle_panic(p, "waker drop");
+            return;
         }
         let unbr = F.with(|f| f.unbracketed_task_wakes.replace(0));
         if unbr > 0 {
@@ -1848,7 +1842,7 @@ impl<'a> Runner<'a> {
 
     fn drain_wakers(&mut self) {
         loop {
-            let ws: Vec<Waker> = with(|w| {
+            let n = with(|w| {
                 let mut v: Vec<Waker> = vec![];
                 for c in w.children.iter_mut() {
                     if let Some(s) = c.stored.take() {
@@ -1857,16 +1851,17 @@ impl<'a> Runner<'a> {
                 }
                 v.extend(w.wakers.drain(..).map(|h| h.waker));
                 v.extend(w.owed.drain(..).map(|h| h.waker));
-                v.extend(w.trash.drain(..));
                 if let Some(s) = w.up.stored.take() {
                     v.push(s);
                 }
-                v
+                // dropped one at a time from the trash: the rest stays visible to the probes
+                w.trash.extend(v);
+                w.trash.len()
             });
-            if ws.is_empty() {
+            if n == 0 {
                 break;
             }
-            if let Err(p) = catch_unwind(AssertUnwindSafe(|| flags::in_crate(|| drop(ws)))) {
+            if let Err(p) = empty_trash() {
                 self.handle_panic(p, "waker drop");
                 return;
             }
